@@ -238,13 +238,8 @@ def run(ctx, anchors=None, failed_step_rule=False):
             snap_local[h] = arg.get("d")
     ctx.floor("R04.2", len(pushed), 1, "history vectors pushed by the stepper")
     # failing / succeeding edge of the step
-    fail_succ = succ_succ = None
-    for (a, s_, c, t) in cfg.cond_edges():
-        if stepper.node_by_id(c) is call:
-            if t:
-                succ_succ = s_
-            else:
-                fail_succ = s_
+    from . import common as _cm4
+    succ_succ, fail_succ = _cm4.call_result_edges(stepper, cfg, call)
     if fail_succ is None or succ_succ is None:
         raise AnalysisBroken("R04.2: the result of the operation step is not branched on in %s" % stepper.name)
     before = {}
